@@ -83,7 +83,7 @@ class C13(Scenario):
 
         def maybe_fault(op):
             if arm in ("interrupts", "long") and rng.random() < (0.3 if arm == "interrupts" else 0.1):
-                return ["fault", "interrupt", int(10 ** rng.uniform(0, 3.7)), op]
+                return ["fault", rng.choice(["interrupt", "interrupt", "memerr"]), int(10 ** rng.uniform(0, 3.7)), op]
             return op
 
         # the baseline snapshot hashes every pool object; in half of the runs the first
@@ -344,7 +344,7 @@ class C13(Scenario):
         nn = len(plan["nodes"])
         viols = []
         model = [dict() for _ in range(nn)]
-        faults = {k: {"configured": 0, "fired": 0} for k in ("interrupt", "crash", "dup", "delay", "salt")}
+        faults = {k: {"configured": 0, "fired": 0} for k in ("interrupt", "memerr", "crash", "dup", "delay", "salt")}
         faults["salt"]["configured"] = faults["salt"]["fired"] = len({nc["salt"] for nc in plan["nodes"]}) - 1
         probes = {
             "pairs_checked": 0,
@@ -372,10 +372,10 @@ class C13(Scenario):
             name = op[0]
             faulted = name == "fault"
             if faulted:
-                faults["interrupt"]["configured"] += 1
+                faults[op[1]]["configured"] += 1
                 v = r.get("ok") or {}
                 if v.get("fired"):
-                    faults["interrupt"]["fired"] += 1
+                    faults[op[1]]["fired"] += 1
                     probes["interrupt_inside_comparison"] += 1
                 continue  # rule for faulted ops: the return value is never used
             if name == "crash":
